@@ -22,12 +22,194 @@ CONSTS_SRC = os.path.join(vlib.ROOT, "harness", "drivers", "c19_consts.cc")
 THREADS = min(16, vlib.NPROC)
 
 
+# ---------------------------------------------------------------------------------------------
+# translator for the two size expressions of FileStream's constructor (util/file_stream.hh): what is malloc'ed and how far
+# end_ is put from the start.  Tiny C++ expression subset -> Gallina over Z; anything else is reported, never skipped.
+class Unsupported(Exception):
+    pass
+
+
+def _balanced(text, start):
+    depth, i = 0, start
+    while i < len(text):
+        if text[i] == "(":
+            depth += 1
+        elif text[i] == ")":
+            depth -= 1
+            if depth == 0:
+                return text[start + 1:i]
+        i += 1
+    raise Unsupported("unbalanced parentheses")
+
+
+_TOK = re.compile(r"\s*(?:(\d+)[uUlL]*|([A-Za-z_][A-Za-z_0-9]*(?:::[A-Za-z_][A-Za-z_0-9]*)*)|(.))")
+_IDENT = {"buffer_size": "buffer_size", "kToStringMaxBytes": "c19_ktostring_max_bytes", "util::kToStringMaxBytes": "c19_ktostring_max_bytes"}
+
+
+def cxx_size_expr_to_gallina(src):
+    toks = []
+    pos = 0
+    while pos < len(src):
+        m = _TOK.match(src, pos)
+        if not m or m.end() == pos:
+            break
+        pos = m.end()
+        toks.append(("num", m.group(1)) if m.group(1) else ("id", m.group(2)) if m.group(2) else ("op", m.group(3)))
+    toks = [x for x in toks if x[1] and x[1].strip()]
+    i = [0]
+
+    def peek():
+        return toks[i[0]] if i[0] < len(toks) else ("end", "")
+
+    def eat(v=None):
+        tk = peek()
+        if v is not None and tk[1] != v:
+            raise Unsupported("expected %r, found %r in %r" % (v, tk[1], src))
+        i[0] += 1
+        return tk
+
+    def skip_template():
+        if peek()[1] == "<":
+            depth = 0
+            while True:
+                tk = eat()
+                if tk[1] == "<":
+                    depth += 1
+                elif tk[1] == ">":
+                    depth -= 1
+                    if depth == 0:
+                        return
+                elif tk[0] == "end":
+                    raise Unsupported("unterminated template argument list")
+
+    def atom():
+        tk = eat()
+        if tk[0] == "num":
+            return tk[1]
+        if tk[1] == "(":
+            e = expr()
+            eat(")")
+            return "(%s)" % e
+        if tk[0] == "id":
+            if tk[1] in ("std::max", "std::min"):
+                skip_template()
+                eat("(")
+                a = expr()
+                eat(",")
+                b = expr()
+                eat(")")
+                return "(Z.%s %s %s)" % (tk[1][5:], a, b)
+            if tk[1] == "static_cast":
+                skip_template()
+                eat("(")
+                e = expr()
+                eat(")")
+                return e
+            if tk[1] in _IDENT:
+                return _IDENT[tk[1]]
+        raise Unsupported("cannot translate %r in %r" % (tk[1], src))
+
+    def term():
+        e = atom()
+        while peek()[1] == "*":
+            eat()
+            e = "(%s * %s)" % (e, atom())
+        return e
+
+    def expr():
+        e = term()
+        while peek()[1] in ("+", "-"):
+            op = eat()[1]
+            e = "(%s %s %s)" % (e, op, term())
+        return e
+
+    e = expr()
+    if peek()[0] != "end":
+        raise Unsupported("trailing %r in %r" % (peek()[1], src))
+    return e
+
+
+def regenerate_file_stream(observed):
+    """coq/Gen/FileStreamC19.v from util/file_stream.hh; returns None or a description of why the tie is broken"""
+    src = open(os.path.join(vlib.REPO, "util", "file_stream.hh")).read()
+    problem = None
+    try:
+        m = re.search(r"explicit\s+FileStream\s*\(\s*int\s+\w+\s*=\s*-1\s*,\s*std::size_t\s+buffer_size[^)]*\)\s*:", src)
+        if not m:
+            raise Unsupported("constructor FileStream(int, std::size_t buffer_size) not found")
+        init = src[m.end():src.index("{", m.end())]
+        a = init.find("MallocOrThrow")
+        if a < 0:
+            raise Unsupported("no MallocOrThrow(...) in the constructor's initialiser list")
+        alloc = cxx_size_expr_to_gallina(_balanced(init, init.index("(", a)))
+        e = re.search(r"end_\s*\(", init)
+        if not e:
+            raise Unsupported("no end_(...) initialiser")
+        endx = _balanced(init, e.end() - 1).strip()
+        if not endx.startswith("current_"):
+            raise Unsupported("end_ is not current_ + <size>: %r" % endx)
+        rest = endx[len("current_"):].strip()
+        if not rest.startswith("+"):
+            raise Unsupported("end_ is not current_ + <size>: %r" % endx)
+        cap = cxx_size_expr_to_gallina(rest[1:])
+    except (Unsupported, ValueError) as ex:
+        problem = "util/file_stream.hh: %s" % ex
+        alloc, cap = "0", "buffer_size"          # makes the reservation theorem fail: the tie is reported as broken
+    body = ("(* GENERATED on every run by harness/py/props/c19.py (regenerate_file_stream) from the initialiser list of\n"
+            "   util::FileStream::FileStream(int, std::size_t buffer_size) in util/file_stream.hh: the size handed to MallocOrThrow\n"
+            "   and the distance from current_ to end_.  Do not edit. *)\n"
+            "From Coq Require Import ZArith.\nFrom Kenlm Require Import Gen.FloatToStringC19.\nLocal Open Scope Z_scope.\n"
+            "Definition c19_fs_alloc (buffer_size : Z) : Z := %s.\nDefinition c19_fs_capacity (buffer_size : Z) : Z := %s.\n" % (alloc, cap))
+    vlib.write_if_changed(os.path.join(vlib.COQ, "Gen", "FileStreamC19.v"), body)
+    if problem is None:
+        # translation validation against what the compiled constructor does
+        env = {"Z": type("Zs", (), {"max": staticmethod(max), "min": staticmethod(min)})}
+        for n, al, cp in observed:
+            scope = dict(env, buffer_size=n, c19_ktostring_max_bytes=observed.ktsmax)
+            ta, tc = eval(_py(alloc), scope), eval(_py(cap), scope)
+            if (ta, tc) != (al, cp):
+                problem = ("translation of FileStream's constructor disagrees with the compiled code for buffer_size=%d: translated (alloc %d, capacity %d), observed (%d, %d)"
+                           % (n, ta, tc, al, cp))
+                break
+    return problem
+
+
+def _py(gallina):
+    """the generated Gallina expression as a Python expression (prefix Z.max a b -> Z.max(a, b))"""
+    s = gallina
+    while True:
+        m = re.search(r"\(Z\.(max|min) ", s)
+        if not m:
+            return s
+        # split the two arguments at top level
+        depth, j, args, start = 0, m.end(), [], m.end()
+        while True:
+            ch = s[j]
+            if ch == "(":
+                depth += 1
+            elif ch == ")":
+                if depth == 0:
+                    args.append(s[start:j])
+                    break
+                depth -= 1
+            elif ch == " " and depth == 0:
+                args.append(s[start:j])
+                start = j + 1
+            j += 1
+        s = s[:m.start()] + "Z_%s(%s)" % (m.group(1), ", ".join(a for a in args if a)) + s[j + 1:]
+        s = s.replace("Z_max", "max").replace("Z_min", "min")
+
+
+class Observed(list):
+    ktsmax = 0
+
+
 def regenerate():
     """coq/Gen/FloatToStringC19.v: converter parameters + reserved sizes printed by a program compiled against the sources"""
     bdir = vlib.build_repo(["kenlm_util"])
     out = os.path.join(vlib.CACHE, "drivers", "c19_consts")
     os.makedirs(os.path.dirname(out), exist_ok=True)
-    rc, o, e = vlib.sh(["g++", "-std=c++11", "-w", "-I" + vlib.REPO, CONSTS_SRC, "-o", out, "-L" + os.path.join(bdir, "lib"), "-lkenlm_util"], timeout=300)
+    rc, o, e = vlib.sh(["g++", "-std=c++11", "-w", "-I" + vlib.REPO, CONSTS_SRC, "-o", out, "-Wl,--wrap=malloc", "-L" + os.path.join(bdir, "lib"), "-lkenlm_util"], timeout=300)
     if rc != 0:
         raise vlib.InfraError("c19_consts does not compile against the current sources (the translator step of C19 is broken):\n" + (o + e)[-3000:])
     rc, o, e = vlib.sh([out], timeout=20, check=True)
@@ -35,7 +217,11 @@ def regenerate():
             "   the current util/float_to_string.{hh,cc}, util/integer_to_string.hh and util/double-conversion headers.  Do not edit. *)\n"
             "From Coq Require Import ZArith.\n")
     vlib.write_if_changed(os.path.join(vlib.COQ, "Gen", "FloatToStringC19.v"), head + o)
-    return dict(re.findall(r"Definition (c19_\w+) : Z := \(?(-?\d+)\)?%Z", o))
+    consts = dict(re.findall(r"Definition (c19_\w+) : Z := \(?(-?\d+)\)?%Z", o))
+    obs = Observed((int(a), int(b), int(c)) for a, b, c in re.findall(r"\(\* FS (\d+) (\d+) (-?\d+) \*\)", o))
+    obs.ktsmax = int(consts["c19_ktostring_max_bytes"])
+    consts["_file_stream_problem"] = regenerate_file_stream(obs)
+    return consts
 
 
 # ---------------------------------------------------------------------------------------------
@@ -194,6 +380,35 @@ def correct_bits(text, dbl):
     return best | ((1 << (63 if dbl else 31)) if neg else 0)
 
 
+def gen_fs_cases(rng, extra):
+    """util::FileStream with explicit buffer sizes: every size 1..64 with the longest outputs of each type first, then random
+    sequences (numbers that begin at every fill level of the buffer, strings around the buffer size)"""
+    longest = ["d:%x" % d2b(-1.2345678901234567e-6), "f:%x" % f2b(-1.2345678e20), "u:ffffffffffffffff", "i:8000000000000000",
+               "p:ffffffffffffffff", "d:%x" % d2b(-1.7976931348623157e308)]
+    cases = []
+    for size in list(range(0, 65)) + [100, 127, 4096, 8192]:
+        cases.append("FS %x %s" % (size, " ".join(longest)))
+    for _ in range(extra):
+        size = rng.choice([rng.range(0, 64), rng.range(0, 64), rng.range(65, 300)])
+        items = []
+        for _ in range(rng.range(1, 12)):
+            k = rng.below(6)
+            if k == 0:
+                items.append("s:%x" % rng.choice([0, 1, size, max(size - 1, 0), size + 1, rng.range(0, 2 * size + 3)]))
+            elif k == 1:
+                items.append(rng.choice(longest))
+            elif k == 2:
+                items.append("d:%x" % rng.below(1 << 64))
+            elif k == 3:
+                items.append("f:%x" % rng.below(1 << 32))
+            elif k == 4:
+                items.append("u:%x" % rng.below(1 << rng.range(1, 64)))
+            else:
+                items.append("i:%x" % rng.below(1 << 64))
+        cases.append("FS %x %s" % (size, " ".join(items)))
+    return cases
+
+
 def gen_parser_hazards(rng, n):
     """(case line, expected bits) for ReadFloat / ReadDouble"""
     out = []
@@ -339,7 +554,7 @@ def run(ctx):
                 cases += ["F %x" % b, "F %x" % (b | 0x80000000)]
     ctx.count("corpus_cases", len(cases))
     cases += gen_float_cases(rng, ctx.pick(4000, 40000)) + gen_double_cases(rng, ctx.pick(4000, 40000)) + gen_int_cases(rng, ctx.pick(1200, 12000))
-    impl = vlib.compile_driver("c19_driver", DRIVER_SRC, libs=("kenlm_util",), extra=("-DNDEBUG",))
+    impl = vlib.compile_driver("c19_driver", DRIVER_SRC, libs=("kenlm_util",), extra=("-DNDEBUG", "-Wl,--wrap=malloc"))
     iout = vlib.run_lines(impl, cases, timeout=900)
     lap("impl")
     fails = []
@@ -365,6 +580,19 @@ def run(ctx):
                           % ("Double" if kind == "double" else "Float", text, o, exp)))
         else:
             nh += 1
+    # ---- FileStream with explicit (small) buffer sizes: the text stays inside what the stream allocated
+    fsc = gen_fs_cases(rng, ctx.pick(600, 6000))
+    fout = vlib.run_lines(impl, fsc, timeout=900)
+    for c, o in zip(fsc, fout):
+        f = o.split()
+        if len(f) != 3 or f[0] != "ok" or f[2] != "1":
+            size = int(c.split()[1], 16)
+            what = ("FileStream(fd, %d) allocated %s bytes and wrote %s bytes past their end" % (size, f[1], f[0].split(":")[1])) if len(f) == 3 and f[0].startswith("OVERRUN") \
+                else "FileStream(fd, %d): %s" % (size, "file content differs from the StringStream text" if len(f) == 3 else o[:200])
+            fails.append(("filestream:" + ("overrun" if "OVERRUN" in o else "content"), c, o, what))
+    ctx.coverage["filestream_cases"] = len(fsc)
+    if consts.get("_file_stream_problem"):
+        fails.append(("translator:file_stream", "regenerate", "", "the tie to util/file_stream.hh is broken: " + consts["_file_stream_problem"]))
     ctx.coverage["parser_midpoint_cases"] = len(hz)
     ctx.coverage["parser_midpoint_cases_ok"] = nh
     lap("oracle")
@@ -448,7 +676,7 @@ def run(ctx):
     ctx.coverage["exploration_note"] = ("decided by execution, not by proof: ToString -> FilePiece::ReadFloat/ReadDouble bit-identical, output within the "
                                         "reserved bytes; float: %s; double: boundary classes x random mantissas; integers vs snprintf and strtol/strtoul"
                                         % ("all 2^32 bit patterns" if not ctx.quick else "2^24 bit patterns, stride 256 from a seeded offset"))
-    ctx.coverage["regenerated_constants"] = consts
+    ctx.coverage["regenerated_constants"] = {k: v for k, v in consts.items() if not k.startswith("_")}
     for c, o in list(zip(cases, iout))[:2] + [(c, o) for c, o in zip(cases, iout) if c.startswith("D ")][:2] + [(c, o) for c, o in zip(cases, iout) if c.startswith("I64")][:1]:
         ctx.sample({"case": c, "impl": o})
     ctx.assumptions += ["x86-64 Linux; IEEE binary32/binary64", "the digit generator (Grisu3 / bignum DoubleToAscii) and double-conversion's StringToDouble are "
@@ -460,6 +688,9 @@ def run(ctx):
         if sig in seen:
             continue
         seen.add(sig)
+        if sig.startswith("translator:"):
+            ctx.report(sig, msg, {"tie": "coq/Gen/FileStreamC19.v <- util/file_stream.hh", "problem": msg}, found=False)
+            continue
         ctx.report("spec:" + sig, msg, {"case": c, "impl_output": o, "how": "./check C19 --replay <this file>"})
     if not fails:
         if mismatches:
@@ -475,10 +706,14 @@ def run(ctx):
 
 def replay(ctx, obj):
     consts = regenerate()
-    impl = vlib.compile_driver("c19_driver", DRIVER_SRC, libs=("kenlm_util",), extra=("-DNDEBUG",))
+    impl = vlib.compile_driver("c19_driver", DRIVER_SRC, libs=("kenlm_util",), extra=("-DNDEBUG", "-Wl,--wrap=malloc"))
     c = obj["replay"]["case"]
     o = vlib.run_lines(impl, [c])[0]
     k = c.split()[0]
+    if k == "FS":
+        print("case:", c, "\nimpl:", o)
+        f = o.split()
+        return 0 if len(f) == 3 and f[0] == "ok" and f[2] == "1" else 1
     if k in ("RF", "RD"):
         text = bytes.fromhex(c.split()[1]).decode()
         exp = "%x" % correct_bits(text, k == "RD")
